@@ -118,6 +118,10 @@ def isKw : PyExpr → Bool
   | .keyword _ _ => true
   | _ => false
 
+def isStar : PyExpr → Bool
+  | .starred _ => true
+  | _ => false
+
 def isParam : PyExpr → Bool
   | .param _ _ _ => true
   | _ => false
@@ -394,7 +398,8 @@ def trailersF (k : Knot) (e : PyExpr) (toks : List Tok) : Option (PyExpr × List
       | .op [']'] :: r2 =>
           match items, comma with
           | [], _ => none
-          | [x], false => k.trailers (.subscript e x) r2
+          -- `a[*b]` (PEP 646): a lone starred item is not a `slice`, CPython reads a one-element tuple
+          | [x], false => if isStar x then k.trailers (.subscript e (.tuple [x])) r2 else k.trailers (.subscript e x) r2
           | _, _ => k.trailers (.subscript e (.tuple items)) r2
       | _ => none
   | _ => some (e, toks)
